@@ -117,7 +117,8 @@ def systematic(tier, rng):
                          "tag": "gone:1:" + err})
             behs.append({"cfg": cfg, "steps": [rec_step("finPatch", err=err), {"a": "Rec"}, {"a": "Rec"}], "tag": "fin:" + err})
     for cfg in ({"startupTaint": True, "extRes": True, "taintVariant": 0}, {"startupTaint": False, "extRes": False, "taintVariant": 0},
-                {"startupTaint": True, "extRes": False, "taintVariant": 1}, {"startupTaint": True, "extRes": True, "taintVariant": 2}):
+                {"startupTaint": True, "extRes": False, "taintVariant": 1, "wrapCapErr": True},
+                {"startupTaint": True, "extRes": True, "taintVariant": 2, "noSyncTaints": True}):
         hp = happy_path(cfg)
         nrec = sum(1 for s in hp if s["a"] == "Rec")
         behs.append({"cfg": cfg, "steps": hp, "tag": "happy"})
@@ -162,7 +163,8 @@ def generate(run, nsim):
     hs = run.generate("Lifecycle", "Lifecycle_Gen.cfg", workers=1, simulate="num=%d" % nsim, depth=20, timeout=900)
     if not hs:
         raise vlib.InfraError("TLC generated no Lifecycle behaviours")
-    behs = [{"cfg": {"startupTaint": True, "extRes": True, "taintVariant": rng.choice([0, 0, 1, 2])}, "steps": from_model(h, rng),
+    behs = [{"cfg": {"startupTaint": True, "extRes": True, "taintVariant": rng.choice([0, 0, 1, 2]),
+                     "noSyncTaints": rng.random() < 0.25, "wrapCapErr": rng.random() < 0.5}, "steps": from_model(h, rng),
              "tag": "tlc-sim"} for h in hs]
     behs += systematic(run.tier, rng)
     return behs
